@@ -26,18 +26,23 @@ NCases == Len(Data.cases)
 VARIABLES i, bad, dc
 
 DocFacts(S) ==
-  LET ok == SchOk(S) IN
-  [ok |-> ok, texts0 |-> IF ok THEN [id \in ColIds(S) |-> FormulaText(Names0(S), S.cols[id])] ELSE <<>>]
+  LET ok == SchOk(S)
+      n0 == Names0(S) IN
+  [ok |-> ok, n0 |-> n0, texts0 |-> IF ok THEN [id \in ColIds(S) |-> FormulaText(n0, S.cols[id])] ELSE <<>>]
 
 Judge(c) ==
   LET S  == Data.docs[c.inp.doc]
       in == [sch |-> S, target |-> c.inp.target, path |-> c.inp.path, req |-> c.inp.req]
       o  == c.out
       fcols == {id \in ColIds(S) : IsFormula(S.cols[id])}
-      setupOk  == \A e \in Entities(S) : e \in DOMAIN o.names0 /\ o.names0[e] = Names0(S)[e]
-      renderOk == \A id \in ColIds(S) : id \in DOMAIN o.texts0 /\ o.texts0[id] = dc[c.inp.doc].texts0[id]
+      facts == dc[c.inp.doc]
+      d0 == DOMAIN o.names0
+      dt == DOMAIN o.texts0
+      dv == DOMAIN o.vals0
+      setupOk  == \A e \in DOMAIN facts.n0 : e \in d0 /\ o.names0[e] = facts.n0[e]
+      renderOk == \A id \in ColIds(S) : id \in dt /\ o.texts0[id] = facts.texts0[id]
       isErr(tok) == Len(tok) > 0 /\ Char(tok, 1) = "E"
-      noErr == \A id \in fcols : id \in DOMAIN o.vals0 /\ \A r \in 1..Len(o.vals0[id]) : ~isErr(o.vals0[id][r])
+      noErr == \A id \in fcols : id \in dv /\ \A r \in 1..Len(o.vals0[id]) : ~isErr(o.vals0[id][r])
       spec == IF ~setupOk THEN {"SPEC.setup"}
               ELSE IF ~renderOk THEN {"SPEC.render"}
               ELSE IF ~noErr THEN {"SPEC.error0"} ELSE {}
